@@ -52,6 +52,8 @@ func (f *frame) baseEnv(st *State) *exprEnv {
 		if len(vs) == 1 {
 			if v, ok := f.vals[vs[0]]; ok && v.term != "" {
 				env.vars[name] = cval{term: v.term, typ: vs[0].Type()}
+			} else if c, isC := vs[0].(*ssa.Const); isC {
+				env.vars[name] = cval{term: f.constTerm(c), typ: c.Type()}
 			}
 		}
 	}
@@ -128,7 +130,7 @@ func (e *exprEnv) sideFact(v cval) {
 	if v.typ == nil || strings.Contains(v.term, "?") {
 		return
 	}
-	f := e.f.t.typeFacts(e.st, v.term, v.typ)
+	f := e.f.t.typeFactsA(e.f.t.lastAlloc, v.term, v.typ)
 	if f == "true" {
 		return
 	}
@@ -508,6 +510,7 @@ func (e *exprEnv) index(n *ast.IndexExpr) (cval, error) {
 		present := fmt.Sprintf("(and (not (= %s 0)) (select (select %s %s) %s))", v.term, e.f.t.get(e.st, mapPArr(u), ps), v.term, k)
 		val := fmt.Sprintf("(select (select %s %s) %s)", e.f.t.get(e.st, mapVArr(u), vsA), v.term, k)
 		out := cval{term: ite(present, val, B.zero(u.Elem())), typ: u.Elem()}
+		e.f.t.lastAlloc = e.st.alloc
 		e.sideFact(cval{term: val, typ: u.Elem()})
 		return out, nil
 	case *types.Basic:
@@ -1193,6 +1196,7 @@ func (e *exprEnv) applyModifies(m string, st *State) error {
 		old := t.get(st, g.arr, g.sort)
 		if g.obj == "" {
 			st.heap[g.arr] = B.declConst(B.fresh(g.arr), g.sort)
+			t.noteVersion(st.heap[g.arr], st.alloc)
 			continue
 		}
 		inner := g.sort[len("(Array Int ") : len(g.sort)-1]
